@@ -11,7 +11,7 @@ ROOTS = [C + 'VerifC20Op', C + 'VerifC20Confine']
 META = dict(
     functions_encoded=['(*DSC).Copy/Move/Remove/AbsFiles', '(*Changes).Copy/Move/Remove/AbsFiles', 'internal.Copy', 'path.Join', 'path.Clean', 'filepath.Dir', 'filepath.Base'],
     stubs=['package os and io.Copy on files: a deterministic filesystem model (engine/symgo/osmodel.py): paths -> file content | directory; failures are those a real filesystem gives for the modelled state (missing source, a directory where a file is expected, a directory in the way of the destination); every call is logged with its path'],
-    bounds={'quick': 'handles with k = 0..2 referenced files, both kinds, all three operations; fault configuration symbolic: every referenced file ok / missing / replaced by a directory (Copy), the control file likewise, a directory blocking any one destination name; confinement: one listed name ranging over every string of length <= 4 over {".", "/", "a"}',
+    bounds={'quick': 'handles with k = 0..2 referenced files, both kinds, all three operations; fault configuration symbolic: every referenced file ok / missing / replaced by a directory (Copy), the control file likewise, a directory blocking any one destination name, a stale same-size file already at a destination name; confinement: one listed name ranging over every string of length 0..4 over {".", "/", "a"}',
             'thorough': 'k = 0..3; listed names up to length 6'},
     outside_claim=['faults a real filesystem produces only under resource exhaustion (ENOSPC, EIO at Close): they are not natively replayable in this sandbox and are not modelled', 'concurrent modification of the directories'],
     assumptions=['the destination exists and is a directory'])
@@ -24,7 +24,7 @@ def jobs(tier):
     for op, kind, k in itertools.product((0, 1, 2), (0, 1), range(K + 1)):
         js.append(dict(name='op%d_kind%d_k%d' % (op, kind, k), kind='op', op=op, hk=kind, k=k))
     for op, kind in itertools.product((0, 1, 2), (0, 1)):
-        for n in range(1, N + 1):
+        for n in range(0, N + 1):
             js.append(dict(name='confine_op%d_kind%d_n%d' % (op, kind, n), kind='confine', op=op, hk=kind, n=n))
     return js
 
@@ -37,17 +37,18 @@ def run_job(env, job):
     if job['kind'] == 'op':
         op, k = job['op'], job['k']
         s = [z3.BitVec('s%d' % i, 64) for i in range(3)]
-        ctl, block = z3.BitVec('ctl', 64), z3.BitVec('block', 64)
+        ctl, block, stale = z3.BitVec('ctl', 64), z3.BitVec('block', 64), z3.BitVec('stale', 64)
         assume = []
         allowed = {0: (0, 1, 2), 1: (0, 1), 2: (0, 1)}[op]
         for i in range(3):
             assume.append(z3.Or(*[s[i] == v for v in allowed]) if i < k else s[i] == 0)
         assume.append(z3.Or(*[ctl == v for v in allowed]))
         assume.append(z3.And(block >= 0, block <= (k + 1 if op != 2 else 0)))
+        assume.append(z3.And(stale >= 0, stale <= (k if op != 2 else 0)))
         if op == 1:
             # a directory in the way is only a fault for a plain file (rename of a directory over an empty directory succeeds)
             pass
-        return run_harness(env, PKG, 'VerifC20Op', [op, job['hk'], k] + s + [ctl, block], assume, unwind=200,
+        return run_harness(env, PKG, 'VerifC20Op', [op, job['hk'], k] + s + [ctl, block, stale], assume, unwind=200,
                            sample='%s on a %s with %d referenced files, symbolic fault configuration' % (['Copy', 'Move', 'Remove'][op], ['.dsc', '.changes'][job['hk']], k))
     name = symstr('n', job['n'])
     return run_harness(env, PKG, 'VerifC20Confine', [job['op'], job['hk'], name], [in_set(c, b'./a') for c in name], unwind=200,
@@ -58,15 +59,18 @@ def validation_calls(env, seed):
     calls = []
     for op in (0, 1, 2):
         for kind in (0, 1):
-            calls.append(('VerifC20Op', [op, kind, 2, 0, 0, 0, 0, 0]))
-            calls.append(('VerifC20Op', [op, kind, 2, 0, 1, 0, 0, 0]))
-            calls.append(('VerifC20Op', [op, kind, 1, 0, 0, 0, 1, 0]))
-    calls.append(('VerifC20Op', [0, 0, 2, 2, 0, 0, 0, 0]))
-    calls.append(('VerifC20Op', [0, 0, 1, 0, 0, 0, 2, 0]))
-    calls.append(('VerifC20Op', [0, 0, 1, 0, 0, 0, 0, 1]))
-    calls.append(('VerifC20Op', [0, 0, 1, 0, 0, 0, 0, 2]))
-    calls.append(('VerifC20Op', [1, 1, 1, 0, 0, 0, 0, 2]))
+            calls.append(('VerifC20Op', [op, kind, 2, 0, 0, 0, 0, 0, 0]))
+            calls.append(('VerifC20Op', [op, kind, 2, 0, 1, 0, 0, 0, 0]))
+            calls.append(('VerifC20Op', [op, kind, 1, 0, 0, 0, 1, 0, 0]))
+    calls.append(('VerifC20Op', [0, 0, 2, 2, 0, 0, 0, 0, 0]))
+    calls.append(('VerifC20Op', [0, 0, 1, 0, 0, 0, 2, 0, 0]))
+    calls.append(('VerifC20Op', [0, 0, 1, 0, 0, 0, 0, 1, 0]))
+    calls.append(('VerifC20Op', [0, 0, 1, 0, 0, 0, 0, 2, 0]))
+    calls.append(('VerifC20Op', [1, 1, 1, 0, 0, 0, 0, 2, 0]))
+    calls.append(('VerifC20Op', [0, 0, 2, 0, 0, 0, 0, 0, 1]))
+    calls.append(('VerifC20Op', [1, 1, 1, 0, 0, 0, 0, 0, 1]))
     calls.append(('VerifC20Confine', [0, 0, b'a']))
+    calls.append(('VerifC20Confine', [1, 1, b'']))
     calls.append(('VerifC20Confine', [2, 1, b'aa']))
     return calls
 
